@@ -172,7 +172,18 @@ package plush
 //@ errprop tolerate is(e, "*ErrUnknownIdentifier") && is(node.Right, "*ast.Identifier")
 //@ assigns c.ctx, c.curStmt, mapsof("map[string]interface{}"), fresh
 
+// ---- C07: exactly the first truthy branch; no later condition is evaluated --------------------------
 //@ func (c *compiler) evalIfExpression
+//@ ghost con = callresult after evalExpression#1
+//@ ghost blk = callresult after evalBlockStatement#1
+//@ ghost rest = callresult after evalElseAndElseIfExpressions#1
+// the block is rendered only under a truthy condition, and it is this node's block
+//@ assert thenblock: truthy(con) && callarg1 == node.Block && calls(evalElseAndElseIfExpressions) == 0 before evalBlockStatement#1
+// the else-if / else part is consulted only when the condition is falsy and nothing was rendered
+//@ assert elsepart: !truthy(con) && calls(evalBlockStatement) == 0 before evalElseAndElseIfExpressions#1
+//@ ensures onecond: calls(evalExpression) == 1
+//@ ensures thenres: err == nil && truthy(con) ==> calls(evalBlockStatement) == 1 && calls(evalElseAndElseIfExpressions) == 0 && result == blk
+//@ ensures elseres: err == nil && !truthy(con) ==> calls(evalBlockStatement) == 0 && calls(evalElseAndElseIfExpressions) == 1 && result == rest
 //@ ensures ufn: is(result, "*userFunction") ==> pay(result) != 0
 //@ requires node != nil
 //@ requires cctx: cctx(c)
@@ -181,6 +192,19 @@ package plush
 //@ assigns c.ctx, c.curStmt, mapsof("map[string]interface{}"), fresh
 
 //@ func (c *compiler) evalElseAndElseIfExpressions
+//@ ghost lastcon = callresult after evalExpression#1
+//@ ghost blk = callresult after evalBlockStatement#1
+// conditions are evaluated in list order, one per else-if reached; every else-if passed over was falsy;
+// nothing has been rendered while the search goes on
+//@ loop 1: invariant search: calls(evalExpression) == ridx1 && ridx1 <= len(node.ElseIf) && calls(evalBlockStatement) == 0
+//@ loop 1: invariant falsy: calls(evalExpression) == prev(calls(evalExpression)) + 1 ==> !truthy(lastcon)
+//@ assert cond: callarg1 == eiNode.Condition before evalExpression#1
+// a block is rendered either for the else-if whose condition was just found truthy, or - every else-if
+// having been tried - for the else branch
+//@ assert chosen: (truthy(eiCon) && callarg1 == eiNode.Block && lastcon == eiCon) || (callarg1 == node.ElseBlock && node.ElseBlock != nil && calls(evalExpression) == len(node.ElseIf)) before evalBlockStatement#1
+//@ ensures atmostone: calls(evalBlockStatement) <= 1 && calls(evalExpression) <= len(node.ElseIf)
+//@ ensures took: err == nil && calls(evalBlockStatement) == 1 ==> result == blk
+//@ ensures none: err == nil && calls(evalBlockStatement) == 0 ==> result == nil && node.ElseBlock == nil && calls(evalExpression) == len(node.ElseIf)
 //@ ensures ufn: is(result, "*userFunction") ==> pay(result) != 0
 //@ requires node != nil
 //@ requires cctx: cctx(c)
@@ -572,6 +596,21 @@ package plush
 
 //@ func PartialHelper
 //@ requires pkginit()
+// C17: the named partial's text is fetched once and rendered once, in a child of the caller's scope
+// created by this call; without layout / javascript escaping the result is exactly that rendering; with
+// a layout the rendering is handed to the layout partial as (unescaped) yield and the layout's result is
+// the result
+//@ ghost fed = callresult after partialFeeder#1
+//@ ghost rendered = callresult after Render#1
+//@ ghost child = callresult after New#1
+//@ ghost lay = callresult after PartialHelper#1
+//@ ghost layerr = callresult1 after PartialHelper#1
+//@ assert feedname: callarg1 == name && calls(New) == 1 before partialFeeder#1
+//@ assert renderfed: callarg0 == fed && callarg1 == cur(help).Context && cur(help).Context == child && calls(New) == 1 && calls(partialFeeder) == 1 before Render#1
+//@ assert yield: callarg0 == unbox(data["layout"], "string") && is(data["layout"], "string") && has(callarg1, "yield") && is(callarg1["yield"], "template.HTML") && unbox(callarg1["yield"], "template.HTML") == part && calls(Render) == 1 before PartialHelper#1
+//@ ensures once: err == nil ==> calls(Render) == 1 && calls(partialFeeder) == 1 && calls(PartialHelper) <= 1
+//@ ensures plain: err == nil && calls(PartialHelper) == 0 && calls(JSEscapeString) == 0 ==> result == rendered
+//@ ensures layoutres: calls(PartialHelper) == 1 ==> result == lay && err == layerr
 //@ requires u3: help.Context == nil || (is(help.Context, "*Context") && pay(help.Context) != 0)
 //@ ensures fail: err != nil ==> result == ""
 //@ errprop
